@@ -205,7 +205,7 @@ func (s *Solver) Check(pc []*Term, extra []*Term, vars []*Term, model map[string
 		q.WriteString("(get-value (")
 		for _, v := range vars {
 			if v.ID < len(s.sent) && s.sent[v.ID] {
-				q.WriteString(v.Name)
+				q.WriteString(v.ref())
 				q.WriteString(" ")
 			}
 		}
@@ -222,6 +222,9 @@ func parseModel(txt string, model map[string]uint64) {
 	f := strings.FieldsFunc(txt, func(r rune) bool { return r == '(' || r == ')' || r == ' ' || r == '\n' || r == '\t' })
 	for i := 0; i+1 < len(f); i += 2 {
 		name, val := f[i], f[i+1]
+		if k := strings.LastIndexByte(name, '!'); k > 0 {
+			name = name[:k] // strip the width suffix of the SMT symbol
+		}
 		switch {
 		case val == "true":
 			model[name] = 1
